@@ -29,7 +29,7 @@ Ev == Hd.ev
 
 NoTerm == 0  Cancelled == 1  ExpiredT == 2
 
-VOk == [C01 |-> "ok", C02 |-> "ok", C03 |-> "ok", C04 |-> "ok", C06 |-> "ok", C08 |-> "ok",
+VOk == [C01 |-> "ok", C02 |-> "ok", C03 |-> "ok", C04 |-> "ok", C06 |-> "ok", C08 |-> "ok", C09 |-> "ok",
         C10 |-> "ok", C16 |-> "ok", C19 |-> "ok", REF |-> "ok"]
 
 \* first failure sticks
@@ -211,6 +211,13 @@ EndStep(e) ==
   /\ v' = [v EXCEPT !.C04 = F(F(@, Len(e.ords) # mkt.nextId, "C04:closure-count"),
                               \E k \in 1..Len(e.ords) : e.ords[k][1] < mkt.nextId /\ bad(k), "C04:closure")]
 
+\* run level: the runner has moved on after accepting an order / cancel on this market while the session's
+\* execution switch was on and the market was running: a matching round must have followed, i.e. no
+\* executable pair may be left (C09; an implementation that skips an EMPTY round is not an alarm)
+QuietStep(e) ==
+  /\ Keep /\ sync' = sync
+  /\ v' = [v EXCEPT !.C09 = F(@, e.exec /\ e.runacc /\ ~C03ok(mkt.live), "C09:round-missing")]
+
 \* the code raised inside a valid operation (clock step, getter): attributed to the property that governs it
 CrashStep(e) ==
   /\ Keep /\ sync' = FALSE
@@ -230,6 +237,7 @@ Step ==
             [] e.k = "probe" -> ProbeStep(e)
             [] e.k = "end" -> EndStep(e)
             [] e.k = "crash" -> CrashStep(e)
+            [] e.k = "quiet" -> QuietStep(e)
 
 Done == l = Len(Ev) + 1
 Report == Done => PrintT(<<"VERDICT", tid, sync, v>>)
